@@ -992,6 +992,29 @@ theorem stat_dir (st : FS) (p : Bytes) (h : stat st p = .ok .dir) :
       | fifo => cases tr <;> simp [Node.kind] at h
       | special s => cases tr <;> simp [Node.kind] at h
 
+/-- a successful `stat`: the path resolves to a node of the reported kind, and that node is not a symlink -/
+theorem stat_ok (st : FS) (p : Bytes) (k : Kind) (h : stat st p = .ok k) :
+    ∃ loc tr n, parsePath st p = .ok (loc, tr) ∧ getAt st.root loc = some n ∧ n.kind = k ∧ ∀ t, n ≠ .symlink t := by
+  unfold stat at h
+  cases hpp : parsePath st p with
+  | error e => rw [hpp] at h; simp at h
+  | ok lt =>
+    obtain ⟨loc, tr⟩ := lt
+    rw [hpp] at h
+    simp only at h
+    cases hw : walk st.root loc with
+    | err e => rw [hw] at h; simp at h
+    | missing => rw [hw] at h; simp at h
+    | found n =>
+      rw [hw] at h
+      have := walk_found _ _ _ hw
+      cases n with
+      | dir es => simp at h; exact ⟨loc, tr, _, rfl, this.1, by simp [Node.kind, h], by simp⟩
+      | file b => cases tr <;> simp [Node.kind] at h; exact ⟨loc, false, _, rfl, this.1, by simp [Node.kind, h], by simp⟩
+      | symlink t => simp at h
+      | fifo => cases tr <;> simp [Node.kind] at h; exact ⟨loc, false, _, rfl, this.1, by simp [Node.kind, h], by simp⟩
+      | special s => cases tr <;> simp [Node.kind] at h; exact ⟨loc, false, _, rfl, this.1, by simp [Node.kind, h], by simp⟩
+
 theorem createDirAll_isDir_noTrailing (st st' : FS) (p : Bytes)
     (h : createDirAll st p = (st', .ok ())) (hl : p.getLast? ≠ some SLASH) : stat st' p = .ok .dir := by
   have hw : writeAllSubPaths st p = (st', .ok ()) := by
